@@ -50,12 +50,17 @@ class TracedBytes(bytes):
 
 class TracedFragments(_fragments.Fragments):
     LOG = None   # set by the context manager
+    FIRST = None  # the buffer of the pack() under observation: a pack of ANOTHER packet issued from inside a callable
+                  # (pack re-entered) works on its own buffer, which is not part of the observed write log
 
     def __init__(self, *a, **k):
         object.__setattr__(self, "_cur", 0)
+        object.__setattr__(self, "_quiet", TracedFragments.LOG is not None and TracedFragments.FIRST is not None)
+        if TracedFragments.LOG is not None and TracedFragments.FIRST is None:
+            TracedFragments.FIRST = self
         _fragments.Fragments.__init__(self, *a, **k)
         # the assignment in __init__ is not a write of the pack
-        if TracedFragments.LOG is not None and TracedFragments.LOG and TracedFragments.LOG[-1] == {"op": "cur", "p": 0}:
+        if not self._quiet and TracedFragments.LOG is not None and TracedFragments.LOG and TracedFragments.LOG[-1] == {"op": "cur", "p": 0}:
             TracedFragments.LOG.pop()
 
     @property
@@ -64,7 +69,7 @@ class TracedFragments(_fragments.Fragments):
 
     @current_offset.setter
     def current_offset(self, v):
-        if TracedFragments.LOG is not None and not getattr(self, "_in_insert", False):
+        if TracedFragments.LOG is not None and not getattr(self, "_in_insert", False) and not getattr(self, "_quiet", False):
             TracedFragments.LOG.append({"op": "cur", "p": v})
         object.__setattr__(self, "_cur", v)
 
@@ -73,12 +78,12 @@ class TracedFragments(_fragments.Fragments):
         try:
             _fragments.Fragments.insert(self, position, string)
         except Exception:
-            if TracedFragments.LOG is not None:
+            if TracedFragments.LOG is not None and not self._quiet:
                 TracedFragments.LOG.append({"op": "ins", "p": position, "s": list(string), "ok": False})
             raise
         finally:
             object.__setattr__(self, "_in_insert", False)
-        if TracedFragments.LOG is not None:
+        if TracedFragments.LOG is not None and not self._quiet:
             TracedFragments.LOG.append({"op": "ins", "p": position, "s": list(string), "ok": True})
 
 
@@ -87,11 +92,13 @@ def traced_fragments(log):
     old = _packet.Fragments
     _packet.Fragments = TracedFragments
     TracedFragments.LOG = log
+    TracedFragments.FIRST = None
     try:
         yield
     finally:
         _packet.Fragments = old
         TracedFragments.LOG = None
+        TracedFragments.FIRST = None
 
 
 def all_packet_classes(mod):
@@ -116,7 +123,8 @@ def field_events(classes, ulog, plog):
 
                 def p(pkt, fragments, **k):
                     r = pack(pkt=pkt, fragments=fragments, **k)
-                    plog.append({"cls": cname, "name": name, "e": fragments.current_offset})
+                    if not getattr(fragments, "_quiet", False):     # (not the buffer of a pack() issued by a callable)
+                        plog.append({"cls": cname, "name": name, "e": fragments.current_offset})
                     return r
                 return p, u
             p, u = mk()
